@@ -14,6 +14,11 @@ package nsqd
 //@ ghost lastWriteMsg *Message
 //@ ghost lastWriteQueue BackendQueue
 //@ ghost lastWriteErr error
+// (round 3, area A) r3aWrittenSet: the messages handed to writeMessageToBackend so far (grows only; changes together with
+// backendWrites, so every frame that names backendWrites names it too). It makes "EVERY in-flight / deferred message
+// was written" provable (map-range completeness).
+//@ ghost r3aWrittenSet set[*Message]
+//@ ghostgroup backendWrites, r3aWrittenSet
 // healthSets counts the calls of NSQD.SetHealth, lastHealth* remember the most recent one.
 //@ ghost healthSets int
 //@ ghost lastHealthErr error
@@ -33,6 +38,7 @@ package nsqd
 //@   onreturn lastWriteMsg := msg
 //@   onreturn lastWriteQueue := bq
 //@   onreturn lastWriteErr := result
+//@   onreturn r3aWrittenSet := setadd(r3aWrittenSet, msg)
 
 //@ func (n *NSQD) SetHealth(err error)
 //@   nochan
@@ -185,6 +191,7 @@ package nsqd
 //@   onreturn lHandChan := c
 //@   onreturn lHandMsg := m
 //@   onreturn lHandDeferred := false
+//@   onreturn r3aHandSawPauseChecks := r3aPauseChecks
 
 // ---- deferred publish -------------------------------------------------------------------------------
 // deferredMutex protects the deferred map and the deferred heap. Every entry of the map is an item
@@ -261,47 +268,75 @@ package nsqd
 //@   onreturn lHandMsg := msg
 //@   onreturn lHandDeferred := true
 //@   onreturn lHandDelay := timeout
+//@   onreturn r3aHandSawPauseChecks := r3aPauseChecks
 
 // ---- flush / empty (C05) ----------------------------------------------------------------------------
-// Close persists what is still held in memory: the memory queues, the in-flight map and the deferred
-// map. What the engine can decide (channel contents and the completeness of a map range are not
-// modelled, see NOTES.md): every write goes to this channel's own backend, the message written in a
-// map iteration is the map entry of that iteration, the deferred entries really carry messages (type
-// assertion), no map or counter is changed, and write errors are logged, never returned.
+// PROPERTY TEXT (C05): every message acknowledged and not yet finished when shutdown was requested - queued in
+// memory, in flight, or deferred - is delivered again after the restart: Channel close writes the memory queues,
+// EVERY entry of the in-flight map and EVERY entry of the deferred map to the channel's own backend; a write error
+// is logged and the next message is still written (never return early); no map or counter is changed.
+// What is stated (round 3, with visited() and the set ghost r3aWrittenSet):
+//  * [every-deferred-written]  every item in the deferred map when deferredMutex is released had its message written;
+//  * invariant[loop2.every-in-flight-written]  (established when the deferred loop is entered, i.e. right after the
+//    in-flight section: `atunlock` there is the release of inFlightMutex) every entry of the in-flight map when
+//    inFlightMutex was released had been written. It cannot be an `ensures` because atunlock() names only the last
+//    release of the function (ENGINE GAP 1 of notes/area_K.md); as a loop-2 entry obligation it is checked all the same;
+//  * invariant[loop0.received-all-written] / invariant[loop1.drained-before] each message received from one of the three
+//    memory queues is written (one write per receive, counted up to the acquisition of inFlightMutex); the drain loop
+//    ends only at the select's `default`. (Channel CONTENTS are not modelled: that the
+//    queues are empty at `default` is Go's select semantics, not provable here.)
 //@ func (c *Channel) flush() error
 //@   props C05 C01
 //@   requires flowChan(c)
 //@   ensures[errors-not-returned] result == nil
 //@   ensures[own-backend] backendWrites > old(backendWrites) ==> lastWriteQueue == c.backend
 //@   ensures[never-unwrites] backendWrites >= old(backendWrites)
+//@   ensures[every-deferred-written] forall id MessageID :: {atunlock(c.deferredMessages[id])} atunlock(has(c.deferredMessages, id)) ==> setin(r3aWrittenSet, atunlock(unbox(c.deferredMessages[id].Value, "*Message")))
+//@   ensures[nothing-enqueued] sent(c.memoryMsgChan) == old(sent(c.memoryMsgChan)) && sent(c.zoneLocalMsgChan) == old(sent(c.zoneLocalMsgChan)) && sent(c.regionLocalMsgChan) == old(sent(c.regionLocalMsgChan))
 //@   ensures[counters-untouched] c.messageCount == old(c.messageCount) && c.requeueCount == old(c.requeueCount) && c.timeoutCount == old(c.timeoutCount)
-//@   modifies c.inFlightMessages, c.inFlightPQ, mapstore(map[MessageID]*Message), c.deferredMessages, c.deferredPQ, mapstore(map[MessageID]*pqueue.Item), backendWrites, lastWriteMsg, lastWriteQueue, lastWriteErr
+//@   modifies c.inFlightMessages, c.inFlightPQ, mapstore(map[MessageID]*Message), c.deferredMessages, c.deferredPQ, mapstore(map[MessageID]*pqueue.Item), backendWrites, lastWriteMsg, lastWriteQueue, lastWriteErr, chanstore(*Message)
 //   (area K) the call is recorded for Channel.exit's contract (ghosts declared in zz_contracts_kchannel_verif.go)
 //@   onreturn kFlushes := kFlushes + 1
 //@   onreturn kFlushChan := c
 //@   loop 0
 //@     invariant[own-backend] backendWrites >= old(backendWrites) && (backendWrites > old(backendWrites) ==> lastWriteQueue == c.backend)
+//@     invariant[received-all-written] queuesDistinct(c) ==> backendWrites - old(backendWrites) ==
+//@          (recvd(c.zoneLocalMsgChan) - old(recvd(c.zoneLocalMsgChan))) + (recvd(c.regionLocalMsgChan) - old(recvd(c.regionLocalMsgChan))) + (recvd(c.memoryMsgChan) - old(recvd(c.memoryMsgChan)))
+//@     invariant[nothing-enqueued] sent(c.memoryMsgChan) == old(sent(c.memoryMsgChan)) && sent(c.zoneLocalMsgChan) == old(sent(c.zoneLocalMsgChan)) && sent(c.regionLocalMsgChan) == old(sent(c.regionLocalMsgChan))
 //@   loop 1
 //@     invariant[own-backend] backendWrites >= atlock(backendWrites) && (backendWrites > old(backendWrites) ==> lastWriteQueue == c.backend)
 //@     invariant[map-kept] c.inFlightMessages == atlock(c.inFlightMessages) && len(c.inFlightMessages) == atlock(len(c.inFlightMessages))
 //@     invariant[entries-kept] forall id MessageID :: {c.inFlightMessages[id]} (has(c.inFlightMessages, id) <==> atlock(has(c.inFlightMessages, id))) && c.inFlightMessages[id] == atlock(c.inFlightMessages[id])
 //@     invariant[wrote-entry] backendWrites > atlock(backendWrites) ==> lastWriteMsg != nil && (exists id MessageID :: {c.inFlightMessages[id]} has(c.inFlightMessages, id) && c.inFlightMessages[id] == lastWriteMsg)
+//@     invariant[visited-written] forall id MessageID :: {c.inFlightMessages[id]} visited(id) ==> setin(r3aWrittenSet, c.inFlightMessages[id])
+//@     invariant[drained-before] queuesDistinct(c) ==> atlock(backendWrites) - old(backendWrites) ==
+//@          (recvd(c.zoneLocalMsgChan) - old(recvd(c.zoneLocalMsgChan))) + (recvd(c.regionLocalMsgChan) - old(recvd(c.regionLocalMsgChan))) + (recvd(c.memoryMsgChan) - old(recvd(c.memoryMsgChan)))
+//@     invariant[nothing-enqueued] sent(c.memoryMsgChan) == old(sent(c.memoryMsgChan)) && sent(c.zoneLocalMsgChan) == old(sent(c.zoneLocalMsgChan)) && sent(c.regionLocalMsgChan) == old(sent(c.regionLocalMsgChan))
 //@   loop 2
 //@     invariant[own-backend] backendWrites >= atlock(backendWrites) && (backendWrites > old(backendWrites) ==> lastWriteQueue == c.backend)
 //@     invariant[map-kept] c.deferredMessages == atlock(c.deferredMessages) && len(c.deferredMessages) == atlock(len(c.deferredMessages))
 //@     invariant[entries-kept] forall id MessageID :: {c.deferredMessages[id]} (has(c.deferredMessages, id) <==> atlock(has(c.deferredMessages, id))) && c.deferredMessages[id] == atlock(c.deferredMessages[id])
 //@     invariant[wrote-entry] backendWrites > atlock(backendWrites) ==> lastWriteMsg != nil && (exists id MessageID :: {c.deferredMessages[id]} has(c.deferredMessages, id) && unbox(c.deferredMessages[id].Value, "*Message") == lastWriteMsg)
+//@     invariant[every-in-flight-written] forall id MessageID :: {atunlock(c.inFlightMessages[id])} atunlock(has(c.inFlightMessages, id)) ==> setin(r3aWrittenSet, atunlock(c.inFlightMessages[id]))
+//@     invariant[visited-written] forall id MessageID :: {c.deferredMessages[id]} visited(id) ==> setin(r3aWrittenSet, unbox(c.deferredMessages[id].Value, "*Message"))
+//@     invariant[nothing-enqueued] sent(c.memoryMsgChan) == old(sent(c.memoryMsgChan)) && sent(c.zoneLocalMsgChan) == old(sent(c.zoneLocalMsgChan)) && sent(c.regionLocalMsgChan) == old(sent(c.regionLocalMsgChan))
 
+// PROPERTY TEXT (C05): Topic close flushes the memory queue to disk: every message received from the memory queue is
+// written to the topic's own backend (one write per receive, a write error does not stop the drain).
 //@ func (t *Topic) flush() error
 //@   props C05 C01
 //@   requires flowTopic(t)
 //@   ensures[errors-not-returned] result == nil
 //@   ensures[own-backend] backendWrites > old(backendWrites) ==> lastWriteQueue == t.backend
 //@   ensures[never-unwrites] backendWrites >= old(backendWrites)
+//@   ensures[received-all-written] backendWrites - old(backendWrites) == recvd(t.memoryMsgChan) - old(recvd(t.memoryMsgChan))
+//@   ensures[nothing-enqueued] sent(t.memoryMsgChan) == old(sent(t.memoryMsgChan))
 //@   ensures[counters-untouched] t.messageCount == old(t.messageCount) && t.messageBytes == old(t.messageBytes)
-//@   modifies backendWrites, lastWriteMsg, lastWriteQueue, lastWriteErr
+//@   modifies backendWrites, lastWriteMsg, lastWriteQueue, lastWriteErr, chanstore(*Message)
 //   (area K) the call is recorded for Topic.exit's contract (ghosts declared in zz_contracts_kchannel_verif.go)
 //@   onreturn kTopicFlushes := kTopicFlushes + 1
 //@   onreturn kFlushTopic := t
 //@   loop 0
 //@     invariant[own-backend] backendWrites >= old(backendWrites) && (backendWrites > old(backendWrites) ==> lastWriteQueue == t.backend)
+//@     invariant[received-all-written] backendWrites - old(backendWrites) == recvd(t.memoryMsgChan) - old(recvd(t.memoryMsgChan))
+//@     invariant[nothing-enqueued] sent(t.memoryMsgChan) == old(sent(t.memoryMsgChan))
